@@ -671,20 +671,25 @@ func (f *fileConfig) Reload(opts ...ReloadedConfigDataOption) error {
 		return err
 	}
 
+	// Compare and update under one lock so that overlapping reloads (timer
+	// and pubsub) cannot both apply, and notify for, the same change.
+	f.mux.Lock()
 	// if nothing's changed, we're fine
 	if f.mainHash == cfg.mainHash && f.rulesHash == cfg.rulesHash {
+		f.mux.Unlock()
 		return nil
 	}
 
 	// otherwise, update our state and call the callbacks
-	f.mux.Lock()
 	f.mainConfig = cfg.mainConfig
 	f.mainHash = cfg.mainHash
 	f.rulesConfig = cfg.rulesConfig
 	f.rulesHash = cfg.rulesHash
+	callbacks := make([]ConfigReloadCallback, len(f.callbacks))
+	copy(callbacks, f.callbacks)
 	f.mux.Unlock() // can't defer -- we don't want callbacks to deadlock
 
-	for _, cb := range f.callbacks {
+	for _, cb := range callbacks {
 		cb(cfg.mainHash, cfg.rulesHash)
 	}
 	return nil
@@ -1162,6 +1167,9 @@ func (f *fileConfig) GetParentIdFieldNames() []string {
 }
 
 func (f *fileConfig) GetConfigMetadata() []ConfigMetadata {
+	f.mux.RLock()
+	defer f.mux.RUnlock()
+
 	ret := make([]ConfigMetadata, 2)
 	ret[0] = ConfigMetadata{
 		Type:     "config",
